@@ -324,3 +324,25 @@ Proof.
   apply andb_prop in H1. destruct H1 as [A B]. apply negb_true_iff in A. apply N.eqb_neq in A. apply N.ltb_lt in B.
   split; [exact A|]. intros ch. pose proof (clock_le_bound s ch). lia.
 Qed.
+
+(* ---- resume: the floor of a restarted channel clock ---- *)
+From Verif Require Server.Data Server.DataProofs.
+(* a hybrid time of millisecond ms: ms * 2^18 + logical part *)
+Lemma resume_floor_above (ms l : Z) : (0 <= l < 262144)%Z -> (ms * 262144 + l < Server.Data.compose_ts (ms + 1))%Z.
+Proof. unfold Server.Data.compose_ts. intros H. Lia.lia. Qed.
+(* every seek position that a (re)start of the server data path hands to the reader lies above every hybrid time of the
+   checkpoint's millisecond *)
+Lemma resume_seeks_above streams s which :
+  let s' := Server.Data.reset_next streams s which in
+  exists new, Server.Data.seeks s' = (Server.Data.seeks s ++ new)%list
+    /\ forall k id ts, In (k, (id, ts)) new ->
+         exists p, Server.Data.nlookup (Server.Data.store s) k = Some p /\ id = Server.Data.ps_id p
+                   /\ forall l, (0 <= l < 262144)%Z -> (Server.Data.ps_ms p * 262144 + l < ts)%Z.
+Proof.
+  cbn zeta. destruct (Server.DataProofs.reset_next_seeks streams s which) as (_ & _ & _ & new & E & H).
+  exists new. split; [exact E|]. intros k id ts Hin. destruct (H k id ts Hin) as (p & L & I & T).
+  exists p. repeat split; try assumption. intros l Hl. rewrite T. apply resume_floor_above. exact Hl.
+Qed.
+(* without the compensating millisecond the floor is not above the times already emitted *)
+Lemma resume_floor_without_ms_refuted : exists ms l : Z, (0 <= l < 262144)%Z /\ ~ (ms * 262144 + l < Server.Data.compose_ts ms)%Z.
+Proof. exists 1000%Z, 1%Z. unfold Server.Data.compose_ts. split; Lia.lia. Qed.
